@@ -41,13 +41,27 @@ def _k5(ctx: Context) -> None:
     def is_struct(t) -> bool:
         return t[0] == "call" and t[1][0] == "attr" and t[1][2] == "get" and t[2] == (("const", "struct"),)
 
-    single = arrays = 0
+    counts = {"single": 0, "arrays": 0}
     for n in cfg.nodes:
         if n.kind != "return" or not n.exprs or n.copy_of:
             continue
-        t = strip_sites(T.of(cfg, n, n.exprs[0]))
+        t0 = strip_sites(T.of(cfg, n, n.exprs[0]))
+
+        def _alts(t_):
+            return [a for x in t_[1] for a in _alts(x)] if t_[0] == "phi" else [t_]
+
+        for t in _alts(t0):  # one return of a local that holds either form (a helper's two returns): each form judged
+            _k5_one(ck, ctx, f, n, t, is_struct, payload, counts)
+    single, arrays = counts["single"], counts["arrays"]
+    ck.check("C16.K5", single >= 1 and arrays >= 1, "Characteristic.value has both forms (single message, bare array)", f"{ctx.fkey(f)}:both-forms",
+             f"Characteristic.value: single-message returns {single}, array returns {arrays}", f.loc())
+
+
+def _k5_one(ck, ctx, f, n, t, is_struct, payload, counts) -> None:
+    single = arrays = 0
+    if True:
         if not contains(t, is_struct):
-            continue
+            return
         ok_single = t[0] == "call" and t[1][0] == "attr" and t[1][2] == "decode" and is_struct(t[1][1]) and t[2] == (payload,) and not t[3]
         ok_array = False
         if t[0] == "comp" and t[1] == "ListComp" and len(t[3]) == 1:
@@ -61,8 +75,8 @@ def _k5(ctx: Context) -> None:
                  f"{ctx.fkey(f)}:struct-result:{'single' if not t[0] == 'comp' else 'array'}",
                  f"Characteristic.value returns {show(t, 160)} for a struct-valued characteristic: the message is not simply the decode of the whole "
                  "stored payload (an all-unset message is zero bytes and must still decode to the equal message)", ctx.loc(f, n))
-    ck.check("C16.K5", single >= 1 and arrays >= 1, "Characteristic.value has both forms (single message, bare array)", f"{ctx.fkey(f)}:both-forms",
-             f"Characteristic.value: single-message returns {single}, array returns {arrays}", f.loc())
+    counts["single"] += single
+    counts["arrays"] += arrays
 
 
 TRUSTED = ["dataclasses.fields() returns fields in declaration order", "struct.pack/unpack and int.from_bytes/to_bytes"]
